@@ -240,6 +240,7 @@ def _bootstrap_margin(ctx):
     F = Frames(b)
     # take the non-top-level branch (no call adjustment) for results_margin / pred_turnout; they are set before the branch
     fr = ret[3] if ret[0] == "phi" else ret
+    fr = am.non_classification_view(fr)
     rm = F.col(fr, ("const", "results_margin"))
     pt = F.col(fr, ("const", "pred_turnout"))
     ok_shape = rm[0] == "call" and ir.show(rm[1]).endswith("nan_to_num") and rm[2] and rm[2][0][0] == "bin" and rm[2][0][1] == "/"
